@@ -116,11 +116,11 @@ def r20a(chk, rid='R20.a'):
     n = bad = 0
     consulted_log = {}
     for cls in list(reps) + ['noresponse']:
-        for http in (None, 'a', 'b'):
+        for http in (None, '', 'a', 'b'):  # '' = an empty charset parameter: no encoding given
             if cls == 'noresponse' and http:
                 continue
             for xml in (None, 'a', 'b', 'c'):
-                for meta in (None, 'a', 'b', 'c'):
+                for meta in (None, '', 'a', 'b', 'c'):
                     called = []
                     doc = ('<?xml version="1.0"' + (f' encoding="{xml}"' if xml else '') + '?>') if (xml or cls in ('appxml',)) else '<html>'
                     if cls == 'noresponse':
@@ -185,8 +185,9 @@ def r20a(chk, rid='R20.a'):
                             want_enc = None
                     known = [x for x in (http, xml_known, meta_known) if x]
                     want_mis = len(set(known)) > 1
-                    got = (res.encoding, bool(res.mismatch), res.xml_encoding, res.meta_encoding, res.http_encoding)
-                    want = (want_enc, want_mis, xml_known, meta_known, http)
+                    # '' and None both say 'no encoding given' (an empty charset parameter is passed through as '')
+                    got = (res.encoding or None, bool(res.mismatch), res.xml_encoding or None, res.meta_encoding or None, res.http_encoding or None)
+                    want = (want_enc or None, want_mis, xml_known or None, meta_known or None, http or None)
                     consulted_log.setdefault(c, set()).update(called)
                     if got != want:
                         bad += 1
